@@ -210,9 +210,11 @@ def gen_cache_ops(rng, n, threaded=False, subs=True, no_overwrite=False, close=T
             present.append(set())
 
     def newval():
-        # codes >= 1000 are stored as a list / dict / numpy array / str / tuple (harness/impl/c20_impl.py: enc), so
+        # codes >= 1000 are stored as a list / dict / numpy array / str / tuple / a falsy value (harness/impl/c20_impl.py: enc), so
         # that an overwrite (or delete + set again) also changes the type of the stored object
         val[0] += 1
+        if rng.random() < 0.06:
+            return rng.choice([6000, 7000, 8000, 9000])       # 0, [], '', {}: false in a boolean context
         return val[0] + (1000 * rng.randint(1, 5) if rng.random() < 0.3 else 0)
     for _ in range(n):
         ci = rng.randrange(ncaches)
@@ -722,6 +724,21 @@ def main(ctx):
         'C20 names: keys (k0..k3) and sub-cache names (a..d) are disjoint; an HDF5 group shares one namespace between keys and '
         'sub-group names by construction (create_subcache: "name of a hdf5 subgroup")',
         'C20 model: keys and values are integers; callbacks are abstracted to their return value',
+        'C20 coverage table (evidence: coverage.api_coverage): public names and options of the three anchored modules are taken by '
+        'reflection in the runner, line coverage by sys.monitoring in every runner process; a public name or option that is neither '
+        'reached / drawn nor classified is a correspondence failure.  Classified as outside the property: the private storage classes '
+        '_NumpyStorage / _NpcArrayStorage (not in __all__; the property names memory, pickle files and HDF5); Mapping.__eq__ and '
+        'setdefault(key) without default (standard-library mixins; None is the harness\'s "absent"); the early return of '
+        'ThreadedStorage.close / __exit__ for a sub-container closed directly',
+        'C20 events, not judged (outside "all sequences of connect/disconnect/emit" and "call exactly the connected listeners in priority '
+        'order"): (a) a listener that connects / disconnects listeners while emit() runs (in the code a listener disconnecting itself makes '
+        'emit skip the next one); (b) which keyword arguments a listener receives when it was connected in the decorator form '
+        '`@handler.connect(priority=..., extra_kwargs=...)` (the code drops extra_kwargs there); the decorator form is drawn with priority only',
+        'C20 after close(): the closed CacheFile itself must not hand out data (its short-term copies are cleared, the storage refuses); a '
+        'sub-cache made by create_subcache keeps its own short-term copies and, with the worker thread, its own preloaded values, and may '
+        'still return those: not judged (bool(sub-cache) is False and writing fails, which is judged)',
+        'C20 delete=False with the worker thread: close() drops queued saves (Model/CacheClose.v), so only the existence of the directory / '
+        'file and closed handles are judged there; without the thread the directory / file must hold exactly the dict',
         'C20 not modelled: CPython GIL and queue.Queue internals (assumed a linearizable FIFO with blocking put/get/join), '
         'the real disk beyond one file per key (pickle / h5py internals), logging; close()/__exit__ of the CacheFile/DictCache layer and of '
         'sub-containers of a ThreadedStorage are oracle-checked only (ThreadedStorage.close + Worker.__exit__: Model/CacheClose.v, '
@@ -739,6 +756,14 @@ RULE = ('events: every connect/disconnect/emit/emit_until sequence up to length 
         'sched: worker schedules enforced by gates at the synchronisation points (see harness/c20_sched.py); distinct = distinct '
         '(storage, queue size, program, schedule).  sched-close: two fixed programs with close() under every schedule string of length 6 plus '
         'random programs with 0-3 close()/__exit__ calls; non-trivial = a close and another operation.  file-storage: random operation '
-        'sequences on a PickleStorage tree of depth <= 3; non-trivial = a save, a subcontainer and a close.')
+        'sequences on a PickleStorage tree of depth <= 3 (and, oracle only, on Storage and Hdf5Storage trees) incl. bool / repr / __exit__ / with; '
+        'non-trivial = a save, a subcontainer and a close.  cache-open: the product of the documented options of CacheFile.open / '
+        'PickleStorage.open / Hdf5Storage.open (storage class, use_threading, delete, directory / filename / tmpdir, mode, subgroup; '
+        'DictCache.trivial, CacheFile.trivial) x the five ways of ending (close, __exit__, with, with + exception in the body, __enter__ + '
+        '__exit__), random operation sequences, second / third sessions on what delete=False left; observed: outputs, file system, open file '
+        'descriptors, worker thread.  worker: three fixed programs (put blocked > 1 s on a full queue; worker dies while the caller is '
+        'blocked in put; use before __enter__ / after __exit__ / second __enter__) + random programs over put_task (args / kwargs / '
+        'return_dict / return_key) / join_tasks / __enter__ / __exit__ / failing tasks; non-trivial = a put and a join.  events-api: random '
+        'programs over up to 4 handlers related by copy(), all forms of connect and connect_by_name; non-trivial = 2 connects and an emit.')
 EXPLANATION = ('theorems of coq/Props/C20.v (all histories, all schedules of the model); models tied to the code by vm_compute '
                'evaluation of every generated trace; oracle = plain dict / plain listener list / 5 s deadline')
